@@ -153,4 +153,73 @@ theorem replicate_false_get (n i : Nat) : (List.replicate n false)[i]? = some fa
   · simp [h]
   · simp [h]
 
+
+/-! ### recovery against a validator list -/
+
+theorem findKey_some {vals : List Nat} {k i : Nat} (h : vals.findIdx? (· == k) = some i) :
+    ∃ hi : i < vals.length, vals[i] = k := by
+  obtain ⟨hi, hp, _⟩ := List.findIdx?_eq_some_iff_getElem.1 h
+  exact ⟨hi, by simpa using hp⟩
+
+theorem findKey_mem {vals : List Nat} {k : Nat} (h : k ∈ vals) : ∃ i, vals.findIdx? (· == k) = some i := by
+  cases hf : vals.findIdx? (· == k) with
+  | some i => exact ⟨i, rfl⟩
+  | none =>
+    have := List.findIdx?_eq_none_iff.1 hf k h
+    simp at this
+
+theorem signerIn_some_iff (vals : List Nat) (th tb tr : Nat) (s : Sig) :
+    (∃ i, signerIn vals th tb tr s = some i ∧ i < vals.length) ↔
+      (s.key ∈ vals ∧ s.height = th ∧ s.blockId = tb ∧ s.round = tr) := by
+  unfold signerIn
+  by_cases ht : s.height = th ∧ s.blockId = tb ∧ s.round = tr
+  · simp only [ht, and_self, if_true, and_true]
+    constructor
+    · rintro ⟨i, hi, _⟩
+      obtain ⟨hlt, e⟩ := findKey_some hi
+      exact e ▸ List.getElem_mem hlt
+    · intro hm
+      obtain ⟨i, hi⟩ := findKey_mem hm
+      exact ⟨i, hi, (findKey_some hi).1⟩
+  · constructor
+    · rintro ⟨i, hi, _⟩
+      rw [if_neg ht] at hi
+      cases hi
+    · intro h
+      exact absurd h.2 ht
+
+theorem nodup_map_congr {α β γ : Type} (f : α → β) (g : α → γ) (l : List α)
+    (h : ∀ x ∈ l, ∀ y ∈ l, f x = f y ↔ g x = g y) : (l.map f).Nodup ↔ (l.map g).Nodup := by
+  induction l with
+  | nil => simp
+  | cons a l ih =>
+    simp only [List.map_cons, List.nodup_cons]
+    have ih' := ih (fun x hx y hy => h x (List.mem_cons_of_mem _ hx) y (List.mem_cons_of_mem _ hy))
+    rw [ih']
+    have : f a ∈ l.map f ↔ g a ∈ l.map g := by
+      constructor
+      · intro hm
+        obtain ⟨y, hy, e⟩ := List.mem_map.1 hm
+        exact List.mem_map.2 ⟨y, hy, ((h y (List.mem_cons_of_mem _ hy) a List.mem_cons_self).1 e)⟩
+      · intro hm
+        obtain ⟨y, hy, e⟩ := List.mem_map.1 hm
+        exact List.mem_map.2 ⟨y, hy, ((h y (List.mem_cons_of_mem _ hy) a List.mem_cons_self).2 e)⟩
+    rw [this]
+
+/-- two signatures over the target recover to the same index iff they are by the same key -/
+theorem signerIn_inj (vals : List Nat) (th tb tr : Nat) (s s' : Sig)
+    (hs : s.key ∈ vals ∧ s.height = th ∧ s.blockId = tb ∧ s.round = tr)
+    (hs' : s'.key ∈ vals ∧ s'.height = th ∧ s'.blockId = tb ∧ s'.round = tr) :
+    signerIn vals th tb tr s = signerIn vals th tb tr s' ↔ s.key = s'.key := by
+  unfold signerIn
+  simp only [hs.2, hs'.2, and_self, if_true]
+  constructor
+  · intro e
+    obtain ⟨i, hi⟩ := findKey_mem hs.1
+    rw [hi] at e
+    obtain ⟨h1, e1⟩ := findKey_some hi
+    obtain ⟨h2, e2⟩ := findKey_some e.symm
+    rw [← e1, ← e2]
+  · intro e; rw [e]
+
 end Goloop.C05.Proofs
